@@ -283,7 +283,7 @@ def register(R):
     cps = R.contracts[f'{PPD}.shutdown']
     cps.props, cps.checks, cps.raises = ('C19',), ppd_sd_checks, {'Exception': only_propagates}
     cps.self_type, cps.old_at = ObjT(PPD, shared=True), 'acquire'      # `_started` as read under `_start_lock`
-    cps.modifies = lambda c: [('f', c.self, '_started')]
+    cps.modifies = lambda c: [('f', c.self, '_started'), ('f', c.self, '_workers')]
 
     # ------------------------------------------------------------------ utils.get_callbacks
     # verified for subscriber lists of length 0, 1 and 2 with arbitrary subscribers (the loop is unrolled; the general
